@@ -15,3 +15,7 @@ reg("C07", "property-based testing: Hypothesis-generated call plans x focus-free
     "Generated call trees are run under focus-free selectors (probing raw, BaseOverlay+Total, two selectors in one probe) and focused selectors forced to total; records must equal the model's: one per ending outermost activation, all values in order once per embedding, none when a capture is empty.",
     "Trusts vlib/model_paths.py; multiplicity per embedding is the documented-by-behaviour reading (DESIGN section 6.2).",
     "DESIGN.md section 5 C07, section 4.2")
+reg("C12", "property-based testing: exhaustive integer box for the stock predicates against their arithmetic definitions + Hypothesis-generated constrained selectors end-to-end against a reference interpreter (filter and conditional override)",
+    "Part (a) enumerates every argument combination in the stated box and compares with the arithmetic definitions of the property; part (b) runs generated inputs under selectors with 1-3 value conditions at both stack levels and compares the delivered stream (and the effect of an override attached to the same selector) with a reference interpreter that filters/substitutes by the reference predicates.",
+    "Trusts the reference interpreter of lo/li in checks/c12.py and vlib/model_paths.py; throttle is only checked for plumbing (once per candidate event, in order).",
+    "DESIGN.md section 5 C12")
